@@ -22,9 +22,9 @@
 //@ check w_c11_handshake  kind=bounded bound=4.1-and-3.20-layouts,5-user-names,accept-and-reject,pipelined,TLS-request-without-offer fn=run_on
 //@ check w_c12_flush      kind=bounded bound=pipelining-with-every-split-point-of-a-3-command-stream fn=run_on
 //@ check w_c13_errors     kind=bounded bound=all-defined-codes,4-messages,4-reporting-sites,messages-around-the-16-MiB-packet-limit fn=run_on
-//@ check w_c14_counts     kind=bounded bound=12-u64-boundary-values-squared,zero-column-row-counts-0..=3,300 fn=run_on
+//@ check w_c14_counts     kind=bounded bound=12-u64-boundary-values-squared,zero-column-row-counts-0..=3,300,one-chain-of-completions-and-zero-column-resultsets-text-and-binary fn=run_on
 //@ check w_c15_ints       kind=bounded bound=12-integer-columns(6-types-x-signedness),4-boundary-classes-via-generic-values,1-row-via-fixed-width-types fn=run_on
-//@ check w_c16_c17_stmt   kind=bounded bound=6-scripts-of-executions-and-long-data-over-2-statements fn=run_on
+//@ check w_c16_c17_stmt   kind=bounded bound=7-scripts-of-executions-and-long-data-over-2-statements(rebind,reuse,reuse-after-long-data) fn=run_on
 //@ check w_c20_malformed kind=bounded bound=48-odd-or-malformed-client-inputs(USE-spellings,unknown-and-truncated-commands,empty-payloads,fragment-ids,all-256-command-bytes) fn=run_on
 //@ check w_c19_faults     kind=bounded bound=every-truncation-point-and-every-failing-transport-operation-of-a-6-command-conversation,every-failing-operation-of-a-conversation-with-multi-packet-responses fn=run_on
 #![allow(dead_code, unused_imports, unused_variables, clippy::all)]
@@ -435,6 +435,18 @@ impl TShim {
                 let mut w = results.start(&[])?;
                 for _ in 0..num(parts[1]) { w.write_row(vec![1u8])?; }
                 w.finish()
+            }
+            "chainzero" => {
+                // completion, zero-column resultset (2 rows), zero-column resultset (1 row), completion
+                let results = results.complete_one(300, 70000)?;
+                let mut w = results.start(&[])?;
+                w.write_row(vec![1u8])?;
+                w.write_row(vec![1u8])?;
+                let results = w.finish_one()?;
+                let mut w = results.start(&[])?;
+                w.write_row(vec![1u8])?;
+                let results = w.finish_one()?;
+                results.completed(7, 251)
             }
             "droprw" => {
                 let cols = vec![vcol("a", ColumnType::MYSQL_TYPE_VAR_STRING, ColumnFlags::empty())];
@@ -1096,6 +1108,25 @@ fn w_c14_counts() {
         assert!(parse_ok(&m[1].2) == Some(Resp::Ok { rows: k, id: 0, status: 0 }), "[C14.w.zero] {} rows of a zero-column resultset reported as {:?}", k, parse_ok(&m[1].2));
         cases += 1;
     }
+    // chained: every completion and every zero-column resultset of a multi-result response arrives, in order
+    for bin in [false, true] {
+        let m = if bin {
+            let r = converse(hs41(b"u", 0), &[(c_query(b"setexec=chainzero"), 0), (c_prepare(b"p:1:0:0"), 0), (c_execute(1, &[], true), 0), quit()], vec![], false, None, None);
+            assert!(r.result.is_ok(), "[C14.w.run] chained completions failed: {:?}", r.result);
+            replies(&r)[3..].to_vec()
+        } else {
+            let (r, m) = one(b"chainzero");
+            assert!(r.result.is_ok(), "[C14.w.run] chained completions failed: {:?}", r.result);
+            m[1..m.len() - 1].to_vec()
+        };
+        let got: Vec<Option<Resp>> = m.iter().map(|x| parse_ok(&x.2)).collect();
+        let want: Vec<(u64, u64, bool)> = vec![(300, 70000, true), (2, 0, true), (1, 0, true), (7, 251, false)];
+        assert!(got.len() == want.len(), "[C14.w.chain] chained completions: {} OK packets arrived, {} were reported ({:?})", got.len(), want.len(), got);
+        for (g, w) in got.iter().zip(want.iter()) {
+            assert!(matches!(g, Some(Resp::Ok { rows, id, status }) if *rows == w.0 && *id == w.1 && (status & 8 != 0) == w.2), "[C14.w.chain] chained completion arrived as {:?}, reported (rows {}, id {}, more {})", g, w.0, w.1, w.2);
+        }
+        cases += 1;
+    }
     println!("VERIF-NATIVE w_c14_counts cases={} nontrivial={}", cases, cases);
 }
 
@@ -1183,7 +1214,44 @@ fn w_c16_c17_stmt() {
     for (k, (e, w)) in ex.iter().zip(want.iter()).enumerate() {
         if let Ev::Execute(_, seen) = e { assert!(seen.iter().map(|x| x.1.as_str()).collect::<Vec<_>>() == *w, "[C17.w.longdata] execution {} saw {:?}, expected {:?}", k, seen, w); }
     }
-    println!("VERIF-NATIVE w_c16_c17_stmt cases=10 nontrivial=10");
+    // interplay: an execution that consumed long data leaves the statement's bound types alone (a later
+    // execution that reuses them decodes as before), and a statement's types survive long data sent to
+    // ANOTHER statement
+    let cmds = vec![
+        (c_prepare(b"p:1:2:0"), 0), (c_prepare(b"p:2:1:0"), 0),
+        (c_execute(1, &[(8, true, Some(7u64.to_le_bytes().to_vec())), (253, false, Some(s(b"ab")))], true), 0),
+        (c_execute(2, &[(2, true, Some(vec![0xff, 0xff]))], true), 0),
+        (c_long(1, 1, b"LONG"), 0),
+        (c_execute(1, &[(8, true, Some(u64::MAX.to_le_bytes().to_vec())), (253, false, Some(vec![]))], false), 0),
+        (c_execute(1, &[(8, true, Some(9u64.to_le_bytes().to_vec())), (253, false, Some(s(b"cd")))], false), 0),
+        (c_execute(2, &[(2, true, Some(vec![0xfe, 0xff]))], false), 0),
+        quit(),
+    ];
+    let r = converse(hs41(b"u", 0), &cmds, vec![], false, None, None);
+    assert!(r.result.is_ok(), "[C16.w.run] executions around long data failed: {:?}", r.result);
+    let ex: Vec<&Ev> = r.log.iter().filter(|e| matches!(e, Ev::Execute(..))).collect();
+    let want: Vec<Vec<(u8, &str)>> = vec![vec![(8, "UInt(7)"), (253, "Bytes([97, 98])")], vec![(2, "UInt(65535)")], vec![(8, "UInt(18446744073709551615)"), (253, "Bytes([76, 79, 78, 71])")], vec![(8, "UInt(9)"), (253, "Bytes([99, 100])")], vec![(2, "UInt(65534)")]];
+    assert!(ex.len() == want.len(), "[C16.w.run] {} executions reached the shim, {} were sent", ex.len(), want.len());
+    for (k, (e, w)) in ex.iter().zip(want.iter()).enumerate() {
+        if let Ev::Execute(_, seen) = e { assert!(seen.len() == w.len() && seen.iter().zip(w.iter()).all(|(a, b)| a.0 == b.0 && a.1 == b.1), "[C16.w.types] execution {} (around long data) decoded as {:?}, expected {:?}", k, seen, w); }
+    }
+    // long data for parameter indexes beyond the first byte of the NULL bitmap (10 parameters)
+    let inl = |k: usize| -> (u8, bool, Option<Vec<u8>>) { (253, false, Some(s(format!("in{}", k).as_bytes()))) };
+    let mut ps: Vec<(u8, bool, Option<Vec<u8>>)> = (0..10).map(inl).collect();
+    ps[1] = (253, false, Some(vec![]));
+    ps[9] = (253, false, Some(vec![]));
+    let cmds = vec![(c_prepare(b"p:1:10:0"), 0), (c_long(1, 9, b"NINE"), 0), (c_long(1, 1, b"ONE"), 0), (c_execute(1, &ps, true), 0), (c_execute(1, &(0..10).map(inl).collect::<Vec<_>>(), true), 0), quit()];
+    let r = converse(hs41(b"u", 0), &cmds, vec![], false, None, None);
+    assert!(r.result.is_ok(), "[C17.w.run] 10-parameter statement with long data failed: {:?}", r.result);
+    let ex: Vec<&Ev> = r.log.iter().filter(|e| matches!(e, Ev::Execute(..))).collect();
+    assert!(ex.len() == 2, "[C17.w.run] {} executions reached the shim, 2 were sent", ex.len());
+    for (k, e) in ex.iter().enumerate() {
+        if let Ev::Execute(_, seen) = e {
+            let want: Vec<String> = (0..10).map(|j| { let b = if k == 0 && j == 9 { b"NINE".to_vec() } else if k == 0 && j == 1 { b"ONE".to_vec() } else { format!("in{}", j).into_bytes() }; format!("Bytes({:?})", b) }).collect();
+            assert!(seen.iter().map(|x| x.1.clone()).collect::<Vec<_>>() == want, "[C17.w.longdata] execution {} of a 10-parameter statement saw {:?}, expected {:?}", k, seen, want);
+        }
+    }
+    println!("VERIF-NATIVE w_c16_c17_stmt cases=17 nontrivial=17");
 }
 
 #[test]
